@@ -47,7 +47,7 @@ def _run_batch(args) -> dict:
 	failures, machinery = [], []
 	for case in cases:
 		for arg, out in zip(argv, case['outcomes']):
-			ref = _python_value(case['text'], arg)
+			ref = _python_value(case['prelude'] + case['text'], arg)
 			if out['undef']:
 				continue  # outside the agreement subset (Python raises IndexError / KeyError or C++ is undefined)
 			if ref != value_of(out):
@@ -57,7 +57,7 @@ def _run_batch(args) -> dict:
 	cases = [c for c in cases if any(not o['undef'] for o in c['outcomes'])]
 	if not cases:
 		return {'failures': [], 'machinery': [], 'programs': 0, 'results': 0}
-	program = '\n'.join(c['text'].replace('def f(', f'def f{first + i}(', 1) for i, c in enumerate(cases))
+	program = cases[0]['prelude'] + '\n'.join(c['text'].replace('def f(', f'def f{first + i}(', 1) for i, c in enumerate(cases))
 	kind = lambda c: '+'.join(c['ops'])
 	try:
 		text = Env().transpile_source(program)
